@@ -19,6 +19,7 @@ import (
 	"encoding/hex"
 	"net/http"
 	"sync"
+	"sync/atomic"
 
 	"github.com/google/martian/v3/log"
 
@@ -28,13 +29,23 @@ import (
 // Handler exposes marbl logs over websockets.
 type Handler struct {
 	mu   sync.RWMutex
-	subs map[string]chan<- []byte
+	subs map[string]*subscription
+}
+
+// subscription is the frame buffer of one websocket subscriber.
+type subscription struct {
+	framec chan<- []byte
+	// dropped is set once a frame could not be buffered. The subscription is
+	// ended then, and from that moment on it is given no further frames, so
+	// that what the subscriber receives is the stream up to the first frame
+	// that was dropped, without a gap.
+	dropped int32
 }
 
 // NewHandler instantiates a Handler with an empty set of subscriptions.
 func NewHandler() *Handler {
 	return &Handler{
-		subs: make(map[string]chan<- []byte),
+		subs: make(map[string]*subscription),
 	}
 }
 
@@ -45,17 +56,21 @@ func (h *Handler) Write(b []byte) (int, error) {
 	defer h.mu.RUnlock()
 
 	var wg sync.WaitGroup
-	for id, framec := range h.subs {
+	for id, sub := range h.subs {
+		if atomic.LoadInt32(&sub.dropped) != 0 {
+			continue
+		}
 		wg.Add(1)
-		go func(id string, fc chan<- []byte) {
+		go func(id string, sub *subscription) {
 			defer wg.Done()
 			select {
-			case fc <- b:
+			case sub.framec <- b:
 			default:
 				log.Errorf("logstream: buffer full for connection, dropping")
+				atomic.StoreInt32(&sub.dropped, 1)
 				go h.unsubscribe(id)
 			}
-		}(id, framec)
+		}(id, sub)
 	}
 	wg.Wait()
 
@@ -100,8 +115,8 @@ func (h *Handler) unsubscribe(id string) {
 	h.mu.Lock()
 	defer h.mu.Unlock()
 
-	if fc, ok := h.subs[id]; ok {
-		close(fc)
+	if sub, ok := h.subs[id]; ok {
+		close(sub.framec)
 		delete(h.subs, id)
 	}
 }
@@ -110,12 +125,12 @@ func (h *Handler) subscribe(id string, framec chan<- []byte) {
 	h.mu.Lock()
 	defer h.mu.Unlock()
 
-	if fc, ok := h.subs[id]; ok {
+	if sub, ok := h.subs[id]; ok {
 		// TODO: Re-pick the id.
 		log.Errorf("Resubscribing with ID: %v", id)
 		// Close the channel for now so the websocket gets disconnected,
 		// instead of silently failing.
-		close(fc)
+		close(sub.framec)
 	}
-	h.subs[id] = framec
+	h.subs[id] = &subscription{framec: framec}
 }
